@@ -23,7 +23,7 @@ ASSUMPTIONS = ["numeric option values are decimals with <= 3 places", "the datas
 STUBS = ["matplotlib.pyplot in verif.output and verif.util -> recording stub (symx/mplstub.py)", "verif.input.get_input -> small in-memory inputs"]
 
 
-def run_plot(S, words, axis=None, metric="mae"):
+def run_plot(S, words, axis=None, metric="mae", missing_first_location=False):
     drv = load.modules["verif.driver"]
     inp = load.modules["verif.input"]
     out = load.modules["verif.output"]
@@ -32,9 +32,13 @@ def run_plot(S, words, axis=None, metric="mae"):
     rng = np.random.RandomState(3)
     files = {}
     for nm in ("A.txt", "B.txt"):
+        obs = np.round(rng.uniform(0, 5, (2, 3, 2)), 1)
+        fcst = np.round(rng.uniform(0, 5, (2, 3, 2)), 1)
+        if missing_first_location:
+            obs[:, :, 0] = np.nan         # no score at the first location: its point gets no annotation
         files[nm] = MI(nm, common.int_array(S, [0, 86400]), S.const([0.0, 6.0, 12.0]),
                        common.locations([1, 2], [60.0, 61.5], [10.0, 11.25], [5.0, 150.0]),
-                       obs=S.const(np.round(rng.uniform(0, 5, (2, 3, 2)), 1)), fcst=S.const(np.round(rng.uniform(0, 5, (2, 3, 2)), 1)))
+                       obs=S.const(obs), fcst=S.const(fcst))
     stub = mplstub.Pyplot()
     saved = (inp.get_input, out.mpl, util.mpl)
     inp.get_input = lambda f: files[f]
@@ -178,6 +182,10 @@ def options(S):
     t["-a"] = (["-a"], "location", lambda c: len(c.find("mpl", "text")) == 4)
     t["-af"] = (["-a", "-af", "lat,lon,elev,location"], "location",
                 lambda c: any_call(S, c, "mpl", "text", lambda a, k: a[2] == "60 10 5 1 ") and any_call(S, c, "mpl", "text", lambda a, k: a[2] == "61.5 11.25 150 2 "))
+    # a point without a score is not annotated, and the others keep their own labels
+    t["-af with a missing score"] = (["-a", "-af", "lat,lon,elev,location"], "location",
+                                     lambda c: len(c.find("mpl", "text")) == 2 and all_calls(S, c, "mpl", "text", lambda a, k: a[2] == "61.5 11.25 150 2 "),
+                                     "mae", True)
     tok, v = dec("-afs", 1, 40)
     t["-afs"] = (["-a", "-afs", tok], "location", lambda c, v=v: all_calls(S, c, "mpl", "text", lambda a, k: S.same(k["fontsize"], v)))
     return t
